@@ -14,12 +14,17 @@
 #include <eav.h>
 
 const char *g_s; size_t g_n; size_t *g_rank; size_t g_a, g_b; int g_have_b;
+int g_past_cut;
 
 /* A4: strchr(p,'.') on the ghost-described string.  found: s[j]=='.' with no dot between p and j (equal rank);
    not found: no dot from p to the end.  The four assumptions marked "lemma" are instances of facts that follow
    from the step axiom rank[k+1] == rank[k] + (s[k]=='.') by induction; they are proved in job lemma_rank. */
 char *strchr(const char *p, int c)
 {
+#ifdef SP_LITE
+    /* before the cut the (havocked) loops are job A's business: there, and only there, the two facts below are assumed */
+    if (!g_past_cut) __CPROVER_assume(c == '.' && __CPROVER_same_object(p, g_s) && (size_t)(p - g_s) <= g_n);
+#endif
     __CPROVER_assert(c == '.' && __CPROVER_same_object(p, g_s), "strchr is used for '.' on the input string only");
     size_t i = (size_t)(p - g_s);
     __CPROVER_assert(i <= g_n, "SAFETY: strchr argument within the string");
@@ -42,11 +47,21 @@ char *strchr(const char *p, int c)
 #define EAV_VERIF_AT_is_special_domain_cut \
     { __CPROVER_assume(((cp == start || cp[-1] == '.') && g_have_b && g_rank[cp - start] == g_rank[g_b]) ==> (size_t)(cp - start) == g_b); /* lemma: label starts of equal rank coincide */ \
       __CPROVER_assert(g_rank[g_n] >= 1 && g_have_b && (size_t)(cp - start) == g_b, "CUT: with at least one dot, cp is the start of the second-to-last label"); __CPROVER_assume(0); }
+#elif defined(SP_LITE)
+/* the loops were havocked: install the values job A proved they compute */
+#define EAV_VERIF_AT_is_special_domain_nodot { __CPROVER_assume(g_rank[g_n] == 0 && g_a == 0); g_past_cut = 1; }
+#define EAV_VERIF_AT_is_special_domain_cut   { __CPROVER_assume(g_rank[g_n] >= 1 && g_have_b); cp = start + g_b; g_past_cut = 1; }
 #else
 #define EAV_VERIF_AT_is_special_domain_nodot { __CPROVER_assume(g_rank[g_n] == 0 && g_a == 0); }   /* proved in job A */
 #define EAV_VERIF_AT_is_special_domain_cut   { __CPROVER_assume(g_have_b && (size_t)(cp - start) == g_b); } /* proved in job A */
 #endif
 
+#ifdef SP_LITE
+/* verdict-only variant (quick tier): the loops are cut off by contracts that say nothing (everything they assign is
+   havocked; the cut facts proved in job A are assumed afterwards); memory safety of the loops is job A's / full job B's business */
+#define EAV_VERIF_LOOP_is_special_domain_count __CPROVER_assigns(cp, ch, count) __CPROVER_loop_invariant(1)
+#define EAV_VERIF_LOOP_is_special_domain_skip  __CPROVER_assigns(cp, ch, count) __CPROVER_loop_invariant(1)
+#else
 #define EAV_VERIF_LOOP_is_special_domain_count \
     __CPROVER_assigns(cp, ch, count) \
     __CPROVER_loop_invariant(__CPROVER_same_object(cp, start) && __CPROVER_POINTER_OFFSET(cp) >= __CPROVER_POINTER_OFFSET(start) && __CPROVER_POINTER_OFFSET(cp) <= __CPROVER_POINTER_OFFSET(end) \
@@ -57,6 +72,7 @@ char *strchr(const char *p, int c)
     __CPROVER_loop_invariant(__CPROVER_same_object(cp, start) && __CPROVER_POINTER_OFFSET(cp) >= __CPROVER_POINTER_OFFSET(start) && __CPROVER_POINTER_OFFSET(cp) <= __CPROVER_POINTER_OFFSET(end) \
         && count >= 1 && g_rank[cp - start] + (size_t)count == g_rank[g_n] && (cp == start || cp[-1] == '.')) \
     __CPROVER_decreases(count)
+#endif
 
 #ifdef JOB_B
 #include <string.h>
@@ -113,12 +129,13 @@ int strncasecmp(const char *a, const char *b, size_t n)
 
 int is_special_domain(const char *start, const char *end)
 PRE_COMMON
+__CPROVER_requires(g_past_cut == 0)
 __CPROVER_requires(g_cp_calls == 0 && g_last_res >= -1 && g_last_res < 5 && g_last_ex >= -1 && g_last_ex < 3)
 /* an oracle answer "equal" is only possible for a label of the word's length (A6 lemma: equality over strlen+1 bytes) */
 __CPROVER_requires(g_last_res >= 0 ==> g_n - g_a + 1 == reserved[g_last_res].length)
 __CPROVER_requires(g_last_ex >= 0 ==> g_n - g_a == 3)
 __CPROVER_requires(g_prev_example ==> (g_have_b && g_a - 1 - g_b == 7))
-__CPROVER_assigns(g_cp_src, g_cp_n, g_cp_dst, g_cp_calls)
+__CPROVER_assigns(g_cp_src, g_cp_n, g_cp_dst, g_cp_calls, g_past_cut)
 /* C09: special iff the last label is a reserved word, or the last two labels are example.<com|net|org> */
 __CPROVER_ensures((__CPROVER_return_value != 0) == (g_last_res >= 0 || (g_prev_example && g_last_ex >= 0)))
 __CPROVER_ensures(__CPROVER_return_value == 0 || __CPROVER_return_value == 1)
